@@ -29,6 +29,8 @@ def run(ctx):
     _r9(ctx)
     _r10(ctx)
     _r11(ctx)
+    # shared clause: an upstream reply reaches the query it answers (waiters keyed by query id)
+    ctx.include("C03", rules=("R8", "R3"))
 
 
 def _r11(ctx):
